@@ -15,7 +15,8 @@ import (
 //
 //   - usable: PRF = HkdfPrf with SHA256/SHA512 and key >= 32, derived type among the types with a key
 //     deriver (keyderivation/internal/keyderivers): AesGcm, XChaCha20Poly1305, AesSiv, Hmac, HkdfPrf,
-//     HmacPrf, Ed25519, AesGcmHkdfStreaming (any of their accepted parameters, usable or not);
+//     HmacPrf, Ed25519, AesGcmHkdfStreaming (any of their accepted parameters, usable or not; DrawUsable
+//     restricts them to usable ones);
 //   - FailsAt "factory": PRF = HmacPrf / AesCmacPrf, or an HkdfPrf that is itself not usable;
 //   - FailsAt "use": derived type without deriver (AesCtrHmacAead, AesGcmSiv, ChaCha20Poly1305,
 //     XAesGcm, AesCmac, AesCmacPrf): keyderivation.New succeeds, DeriveKeyset fails.
@@ -48,7 +49,9 @@ func drawDeriver(t *rapid.T, label string, usableOnly bool) (builder, string, ui
 	} else {
 		derivedType = rapid.SampledFrom(derivableTypes).Draw(t, label+"_derived_type")
 	}
-	s.derived = drawType(t, label+"_derived", derivedType, false)
+	// DrawUsable also restricts the derived-key parameters to usable ones, so that the keys of the
+	// derived keyset work (and the deriver is not Lossy).
+	s.derived = drawType(t, label+"_derived", derivedType, usableOnly)
 	return s.build, s.derived.Variant, s.derived.ID
 }
 
